@@ -46,8 +46,11 @@ def valid(kind, k=0):
     cid = ("h%d" % k).encode()
     if kind == "CONNECT":
         return frame(0x10, lp(b"MQTT") + bytes([4, 2, 0, 60]) + lp(cid))
-    if kind == "CONNECTWILL":
-        return frame(0x10, lp(b"MQTT") + bytes([4, 0x2e, 0, 60]) + lp(cid) + lp(b"hw/t") + lp(b"hostile-will"))
+    if kind.startswith("CONNECTWILL"):
+        # will flag + will QoS (0, 1 or 2) [+ will retain]
+        q = int(kind[-1]) if kind[-1].isdigit() else 1
+        flags = 0x02 | 0x04 | (q << 3) | (0x20 if q == 1 else 0)
+        return frame(0x10, lp(b"MQTT") + bytes([4, flags, 0, 60]) + lp(cid) + lp(b"hw/t") + lp(b"hostile-will"))
     if kind == "CONNACK":
         return frame(0x20, bytes([0, 0]))
     if kind.startswith("PUBLISH"):
@@ -175,6 +178,9 @@ def check(run):
                 st.append(("raw", m[0], m[1], m[2]))
             elif k == "EOF":
                 st.append(("raw", "eof", b"", True))
+            elif k == "CONNECT":
+                # a CONNECT without a will, or with a will of QoS 0 / 1 / 2: the will is published when the stream ends badly
+                st.append(("valid", ["CONNECT", "CONNECTWILL0", "CONNECTWILL1", "CONNECTWILL2"][len(streams) % 4]))
             else:
                 st.append(("valid", k))
         streams.append((False, st))
@@ -188,44 +194,12 @@ def check(run):
     scns = [build(streams[i:i + per]) for i in range(0, len(streams), per)]
     run.log("%d hostile streams in %d broker scenarios" % (len(streams), len(scns)))
     v = vlib.Verdict(run)
-    crashed = 0
-    todo = list(scns)
-    alltraces = []
-    for attempt in range(6):
-        tpath, crashes = brokerlib.execute(run, todo, "c18-%d" % attempt, shards=14, timeout=3000)
-        alltraces.append((tpath, todo))
-        if not crashes:
-            break
-        # a broker process died: find the scenario and the stream it was in
-        ev = vlib.load_events(tpath)
-        bad = set()
-        nshards = min(14, len(todo))
-        for (shard, rc, err) in crashes:
-            crashed += 1
-            # the last scenario started by that shard
-            mine = [e for e in ev if e["op"] == "new" and (e["scn"] - 1) % nshards == shard]
-            scn_idx = mine[-1]["scn"] - 1 if mine else shard
-            bad.add(scn_idx)
-            m = re.search(r"(panic: .*?)\n\n", err + "\n\n", re.S)
-            pan = (m.group(1) if m else err[-600:])[:900]
-            where = "other"
-            if "mqtt-protocol" in err:
-                where = "decoder"
-            mm = re.search(r"vx-labs/wasp/v4/([\w/]+\.\w+)\(", err) or re.search(r"/repo/([\w/\.]+):\d+", err)
-            last_raw = [e for e in ev if e.get("op") == "cli.send" and e.get("kind") == "RAW"]
-            v.add("broker-process-died:" + where, "the broker process died while serving hostile input: %s" % pan,
-                  {"kind": "broker", "scenario": todo[scn_idx], "panic": pan})
-        todo = [s for i, s in enumerate(todo) if i not in bad]
-        if len(v.violations) >= 3:
-            break
-    nev = validated = tstates = 0
-    rejected = []
-    for tpath, sc in alltraces[-1:]:
-        a, b, c, d, e = brokerlib.validate(run, "C18", sc, tpath, v)
-        nev += a
-        validated += c
-        rejected += d
-        tstates += e
+    # every scenario runs in a broker process of its own; a panic is recorded in the trace as "process.died" with the panic text
+    tpath, crashes = brokerlib.execute(run, scns, "c18", shards=14, timeout=6000)
+    if crashes:
+        raise vlib.Inconclusive("broker driver died: %s" % crashes[0][2][-2000:])
+    crashed = sum(1 for ln in open(tpath) if '"op":"process.died"' in ln)
+    nev, nscn, validated, rejected, tstates = brokerlib.validate(run, "C18", scns, tpath, v)
     rc = v.finish()
     vlib.write_evidence(run, {
         "traces_validated_against_impl": validated,
